@@ -122,6 +122,51 @@ def c30_patch_random_does_not_track():
     gen._patch_random = _patch_random
 
 
+def c30_PROPOSED_FIX_reseed_with_construction_seed():
+    """Proposed patch for order-dependence:Random(seed).lazy-global: the patched seed() remembers the seed an instance was
+    constructed with, and _make_deterministic reseeds it with *that* seed (config seed if none was given)."""
+    import random
+    import weakref
+
+    import pynguin.configuration as config
+    import pynguin.generator as gen
+    import pynguin.testcase.execution as ex
+    import pynguin.testcase.execution_isolation as iso
+    from pynguin.utils import randomness
+
+    def _patch_random():
+        if getattr(random.Random.seed, "__pynguin_patched__", False):
+            return
+        orig = random.Random.seed
+        tracked = weakref.WeakSet()
+
+        def seed(self, x=None):
+            if x is None:
+                x = config.configuration.seeding.seed
+            elif type(x).__hash__ is object.__hash__:
+                x = f"{type(x).__module__}.{type(x).__name__}"
+            orig(self, x)
+            self.__dict__.setdefault("_pynguin_construction_seed", x)  # first call = the one made by __init__
+            tracked.add(self)
+
+        seed.__pynguin_patched__ = True
+        seed.__pynguin_instances__ = tracked
+        random.Random.seed = seed
+
+    def _make_deterministic():
+        seed = config.configuration.seeding.seed
+        random.seed(seed)
+        tracked = getattr(random.Random.seed, "__pynguin_instances__", None)
+        if tracked is not None:
+            for inst in list(tracked):
+                if inst is not randomness.RNG:
+                    inst.seed(inst.__dict__.get("_pynguin_construction_seed", seed))
+
+    gen._patch_random = _patch_random
+    iso._make_deterministic = _make_deterministic
+    ex._make_deterministic = _make_deterministic
+
+
 def c30_PROPOSED_FIX_logging_state_and_null_file():
     """Proposed patch: save/restore logging state around the SUT, reopen the shared null file if the SUT closed it,
     give the SUT a throw-away sys.stdin."""
@@ -285,6 +330,19 @@ def c31_subprocess_covers_no_lines_of_last_code_object():
     _patch_fix_result(extra)
 
 
+def c31_subprocess_timeout_ignores_test_size():
+    """The subprocess executor waits test_execution_time_per_statement per test case instead of per statement."""
+    from pynguin.testcase.subprocess_executor import SubprocessTestCaseExecutor as S
+
+    def _calculate_timeout_for_multiple(self, test_cases):
+        return min(self._maximum_test_execution_timeout * len(test_cases), self._test_execution_time_per_statement * len(test_cases))
+
+    S._calculate_timeout_for_multiple = _calculate_timeout_for_multiple
+
+
+C31_SPEC = {"subprocess_timeout_ignores_test_size": {"name": "slow", "module": "c31_tri", "config": 2, "reps": 1, "ks": [3, 4]}}
+
+
 def c31_PROPOSED_FIX_keep_unpicklable_exceptions():
     """Proposed patch: an exception that pickle cannot re-create through its constructor is sent as
     (type, args, picklable part of __dict__) and rebuilt without calling __init__, instead of being dropped."""
@@ -408,7 +466,7 @@ def _child(which, name):
 
             mods = ["c31_exc", "c31_acc"] if "exception" in name.lower() or name in ("none", "PROPOSED_PATCH_FILE", "PROPOSED_PATCH_FILE_baditems_raises") else ["c31_acc", "c31_tri"]
             # one SUT module per process (the subprocess executor looks at sys.meta_path[0]): second module in a grandchild
-            chk.run_chunk({"name": "directed", "module": mods[0]}, ctx)
+            chk.run_chunk(C31_SPEC.get(name, {"name": "directed", "module": mods[0]}), ctx)
         else:
             import checks.c32_timeouts as chk
 
